@@ -40,7 +40,7 @@ def check(prog, run, rule_id, prefixes, floor, consequence):
                         continue
                     fn = c.func
                     ok = False
-                    if isinstance(fn, ast.Name) and fn.id in ("next", "len", "int", "str", "iter", "tuple", "list", "cast"):
+                    if isinstance(fn, ast.Name) and fn.id in ("next", "len", "int", "str", "iter", "tuple", "list", "cast", "type", "id", "hash", "repr", "isinstance", "getattr", "frozenset", "set", "dict", "min", "max", "sorted"):
                         ok = True
                     elif isinstance(fn, ast.Attribute) and fn.attr in PURE_METHODS and not (isinstance(fn.value, ast.Name) and fn.value.id == "self"):
                         ok = True
